@@ -69,11 +69,10 @@ PROPS["C02"] = {
     "quick": [{"name": "window", "harnesses": ["c02_w_buy_sale_buy"], "jobs": 1, "mem_gb": 28, "harness_timeout_s": 2400,
                "cbmc_args": ["--max-field-sensitivity-array-size", "400"]}],
     "thorough": [{"name": "window", "harnesses": ["c02_w_buy_sale_buy", "c02_w_otherbuy_sale_sell",
-                                                  "c02_w_regbuy_sale_otherbuy_othersell", "c02_amount_one_buyer",
-                                                  "c02_specified_sfl_validated"],
-                  "jobs": 3, "mem_gb": 28, "timeout_s": 20000, "harness_timeout_s": 6000}],
-    "functions": WINDOW_FUNCS + ["portfolio::bookkeeping::delta_list::get_delta_superficial_loss_info (thorough)",
-                                 "util::math::c_maybe_round_to_effective_cent (thorough)"],
+                                                  "c02_w_regbuy_sale_otherbuy_othersell", "c02_lemma_buy_sale"],
+                  "jobs": 2, "mem_gb": 28, "timeout_s": 20000, "harness_timeout_s": 6000,
+                  "cbmc_args": ["--max-field-sensitivity-array-size", "400"]}],
+    "functions": WINDOW_FUNCS,
     "bounds": WINDOW_BOUNDS,
     "outside": WINDOW_OUTSIDE,
 }
@@ -162,10 +161,12 @@ CLAIMS = {
                  "are decided, not sampled), symbolic share counts; oracle = the statement (in-window iff |days|<=30, "
                  "superficial iff acquired>0 and held>0, numerator = min(sold, acquired, held), per-buyer portions, "
                  "over-applied flag). Thorough adds other-affiliate / registered-buyer / later-sale shapes and the "
-                 "denied-amount and user-specified-SFL validation on get_delta_superficial_loss_info."),
-        "note": (TRUSTED + "Quick tier = one shape (Buy, loss sale, Buy by the seller); the other shapes, the amount "
-                 "(loss x ratio, effective-cent rule) and the 0.001/'!' validation are thorough-tier only (10-20 GB and "
-                 "20+ min each). 'gain = loss - denied' in delta_for_tx's loss branch is not separately encoded."),
+                 "clause that a later sale inside the window reduces the holdings."),
+        "note": (TRUSTED + "Quick tier = one shape (Buy, loss sale, Buy by the seller); the other shapes are "
+                 "thorough-tier only (10-20 GB and 10+ min each). NOT covered: the denied amount (loss x ratio with the "
+                 "effective-cent rule), 'gain = loss - denied' and the validation of a user-supplied superficial loss "
+                 "(0.001 tolerance, '!'): get_delta_superficial_loss_info did not get through CBMC in any configuration "
+                 "(DESIGN.md 0.6); the rounding helper it uses is checked under C05."),
         "design_ref": "DESIGN.md 0, 5 C02",
     },
     "C06": {
